@@ -7,7 +7,9 @@ Tie B (Model/Generators.v): the repository's own logic is co-executed with the m
   mod     : modular assembly given the recorded ER graphs, component lists and rng.choice() indices
   plc     : the degree sequence handed to configuration_model given rng.integers / rng.random and p(k)
 D: everything the property text says, on the graphs the implementation returned (also for the kinds er, ba and
-exp = topology marker recorded by NetworkExperiment.setUp, which have no model)."""
+exp = topology marker recorded by NetworkExperiment.setUp and the working network of every run, which have no model).
+"Equal copies" of a fixed network means nodes, edges and the node, edge and graph attributes; "independent" is judged with
+immutable attribute values only (Graph.copy() copies the attribute dictionaries, not the values)."""
 import itertools
 import math
 import random as pyrandom
@@ -80,6 +82,67 @@ class patched:
             setattr(self.mod, k, v)
 
 
+ATTR_KEYS = ['w', 'tag', 'origin']
+ATTR_VALUES = [0, 1, 2, 7, 41, 'x', 'yy', 'core']
+
+
+def gen_attrs(rnd, p=0.6):
+    """attributes as a list of [key, value] (immutable values: Graph.copy() copies the attribute dictionaries shallowly)"""
+    return [[k, rnd.choice(ATTR_VALUES)] for k in ATTR_KEYS if rnd.random() < p]
+
+
+def attr_items(d):
+    return sorted([str(k), v] for k, v in d.items())
+
+
+def full_view(g):
+    """nodes, edges and the graph itself WITH their attributes, independent of iteration order"""
+    return {'nodes': sorted([n, attr_items(d)] for n, d in g.nodes(data=True)),
+            'edges': sorted([list(norm((a, b))), attr_items(d)] for a, b, d in g.edges(data=True)),
+            'graph': attr_items(g.graph)}
+
+
+def fixed_spec_view(case):
+    """what an equal copy of the prototype described by the case looks like, from the case alone"""
+    nat = {n: a for n, a in case.get('nattr', [])}
+    eat = case.get('eattr') or [[] for _ in case['edges']]
+    return {'nodes': sorted([n, sorted([str(k), v] for k, v in nat.get(n, []))] for n in case['nodes']),
+            'edges': sorted([list(norm(tuple(e))), sorted([str(k), v] for k, v in a)] for e, a in zip(case['edges'], eat)),
+            'graph': sorted([str(k), v] for k, v in case.get('gattr', []))}
+
+
+def fixed_proto(case):
+    proto = networkx.Graph()
+    nat = {n: a for n, a in case.get('nattr', [])}
+    for n in case['nodes']:
+        proto.add_node(n, **{k: v for k, v in nat.get(n, [])})
+    eat = case.get('eattr') or [[] for _ in case['edges']]
+    for e, a in zip(case['edges'], eat):
+        proto.add_edge(e[0], e[1], **{k: v for k, v in a})
+    for k, v in case.get('gattr', []):
+        proto.graph[k] = v
+    return proto
+
+
+def spoil(g, pn, pe):
+    """change a copy in every way a user can: structure, new attributes, new values for existing attribute keys"""
+    g.add_node(999)
+    g.add_edge(999, pn[0])
+    if pe:
+        g.remove_edge(*pe[0])
+    g.nodes[pn[0]]['x'] = 1
+    for n in list(g.nodes()):
+        for k in list(g.nodes[n]):
+            g.nodes[n][k] = 'spoilt'
+    for a, b in list(g.edges()):
+        for k in list(g.edges[a, b]):
+            g.edges[a, b][k] = 'spoilt'
+        g.edges[a, b]['fresh'] = 1
+    for k in list(g.graph):
+        g.graph[k] = 'spoilt'
+    g.graph['fresh'] = 1
+
+
 def dyadic(rnd, bits=4):
     return rnd.randrange(0, (1 << bits) + 1) / float(1 << bits)
 
@@ -106,10 +169,12 @@ class H(Harness):
             'steps in which one parameter changes at a time, limit None or 1-3; with python random, numpy and the oracle seeded identically every network must equal '
             'the one a fresh generator makes from the most recent parameters), '
             ' quota (random set/mutate/generate/next programs, limit None or 0-3, with and without '
-            'constructor parameters), fixed (random prototype, limit, copies mutated afterwards), er (N 1-30, phi in {0,1,dyadic} or kmean), '
+            'constructor parameters), fixed (random prototype whose nodes, edges and the graph itself carry random attributes (bare every sixth time), limit; '
+            'one copy is changed - structure, new attributes, new values under existing keys - before or after the others are asked for), er (N 1-30, phi in {0,1,dyadic} or kmean), '
             'ba (N 2-30, M 1..N-1), plc (N 2-12, exponent 2/2.5/3, cutoff 2/5/10/40, integers biased to small degrees), cp (N_core 1-10, '
             'N_per 1-14, densities incl. 0 and 1, rng.random scripted on multiples of 1/16 so r == phi occurs), mod (N_core 1-10, 0-4 '
-            'satellites of size 1-8, densities incl. 0 and 1), exp (every generator class through NetworkExperiment.setUp); '
+            'satellites of size 1-8, densities incl. 0 and 1), exp (every generator class through NetworkExperiment.setUp: 1-4 runs of ONE experiment and ONE caller dictionary, '
+            'between runs either setNetworkGenerator() with a new generator or the same generator with N changed in the dictionary or nothing changed; every run spoils its working network); '
             'non-trivial: quota with a generate after a set and a mutate, cp/mod with >= 2 components or cross links, plc with a rejected draw; '
             'distinct by the whole case')
     TRUSTED = ['Coq 8.16.1 kernel incl. vm_compute',
@@ -124,7 +189,7 @@ class H(Harness):
     def gen_cases(self, tier, rnd, n):
         out = []
         kinds = ['quota', 'fixed', 'er', 'ba', 'plc', 'cp', 'mod', 'exp', 'reuse']
-        weight = {'quota': 4, 'fixed': 2, 'er': 2, 'ba': 1, 'plc': 1, 'cp': 3, 'mod': 3, 'exp': 1, 'reuse': 6}
+        weight = {'quota': 4, 'fixed': 2, 'er': 2, 'ba': 1, 'plc': 1, 'cp': 3, 'mod': 3, 'exp': 2, 'reuse': 6}
         bag = [k for k in kinds for _ in range(weight[k])]
         for j in range(n):
             kind = bag[j % len(bag)]
@@ -150,8 +215,21 @@ class H(Harness):
         n = rnd.randrange(1, 9)
         nodes = rnd.sample(range(0, 40), n)
         edges = [[a, b] for a, b in itertools.combinations(nodes, 2) if rnd.random() < 0.4]
-        return {'kind': 'fixed', 'seed': rnd.randrange(1 << 30), 'nodes': nodes, 'edges': edges,
-                'limit': rnd.choice([None, 0, 1, 2, 3]), 'ops': [[rnd.choice(['gen', 'next'])] for _ in range(rnd.randrange(1, 6))]}
+        c = {'kind': 'fixed', 'seed': rnd.randrange(1 << 30), 'nodes': nodes, 'edges': edges,
+             'limit': rnd.choice([None, 0, 1, 2, 3]), 'ops': [[rnd.choice(['gen', 'next'])] for _ in range(rnd.randrange(1, 6))]}
+        self._gen_fixed_attrs(rnd, c)
+        c['mutate_early'] = rnd.random() < 0.5       # the first copy is changed BEFORE the later ones are asked for
+        return c
+
+    def _gen_fixed_attrs(self, rnd, c):
+        """node, edge and graph attributes of the prototype (a bare one every sixth time)"""
+        if rnd.random() < 1.0 / 6:
+            return
+        c['nattr'] = [[n, gen_attrs(rnd)] for n in c['nodes']]
+        c['eattr'] = [gen_attrs(rnd) for _ in c['edges']]
+        c['gattr'] = gen_attrs(rnd)
+        if not any(a for _, a in c['nattr']):
+            c['nattr'][0][1] = [['origin', 1]]
 
     def gen_er(self, rnd):
         c = {'kind': 'er', 'seed': rnd.randrange(1 << 30), 'N': rnd.randrange(1, 31), 'limit': rnd.choice([None, 0, 1, 2, 3])}
@@ -235,15 +313,28 @@ class H(Harness):
             n = rnd.randrange(1, 7)
             c['nodes'] = rnd.sample(range(0, 30), n)
             c['edges'] = [[a, b] for a, b in itertools.combinations(c['nodes'], 2) if rnd.random() < 0.5]
+            self._gen_fixed_attrs(rnd, c)
         return c
 
     def gen_exp(self, rnd):
         kinds = ['fixed', 'graph', 'er', 'ba', 'plc', 'cp', 'mod']
         which = rnd.choice(kinds)
         c = {'kind': 'exp', 'seed': rnd.randrange(1 << 30), 'which': which, 'N': rnd.randrange(3, 12)}
-        if rnd.random() < 0.5:
-            # further runs of the SAME experiment with the SAME parameter dictionary after setNetworkGenerator()
-            c['then'] = [rnd.choice(kinds) for _ in range(rnd.choice([1, 2]))]
+        if rnd.random() < 0.3:
+            c['dense'] = True        # core-periphery and modular with all densities 1: the order of the network is determined
+        if rnd.random() < 0.8:
+            # further runs of the SAME experiment with the SAME parameter dictionary: after setNetworkGenerator() with a new
+            # generator (a kind), or KEEPING the generator while the caller changes N in its dictionary, or changes nothing (['keep', N])
+            then = []
+            n = c['N']
+            for _ in range(rnd.choice([1, 2, 2, 3])):
+                if rnd.random() < 0.55:
+                    if rnd.random() < 0.75:      # otherwise: simply once more, nothing changed
+                        n = rnd.choice([x for x in range(3, 12) if x != n])
+                    then.append(['keep', n])
+                else:
+                    then.append(rnd.choice(kinds))
+            c['then'] = then
         return c
 
     def exhaustive_cases(self, tier):
@@ -312,36 +403,40 @@ class H(Harness):
     # .... fixed
     def run_fixed(self, case):
         from epydemic import FixedNetwork
-        proto = networkx.Graph()
-        proto.add_nodes_from(case['nodes'])
-        proto.add_edges_from([tuple(e) for e in case['edges']])
+        proto = fixed_proto(case)
         pn, pe = list(proto.nodes()), list(proto.edges())
         gen = FixedNetwork(proto, limit=case['limit'])
-        gs = []
+        gs, outs, views = [], [], []
+        spoilt = None
         for op in case['ops']:
             if op[0] == 'gen':
-                gs.append(gen.generate())
+                g = gen.generate()
             else:
                 try:
-                    gs.append(next(gen))
+                    g = next(gen)
                 except StopIteration:
-                    gs.append(None)
-        outs = [None if g is None else [list(g.nodes()), [list(e) for e in g.edges()]] for g in gs]
+                    g = None
+            gs.append(g)
+            # what the copy looks like when it is handed out
+            outs.append(None if g is None else [list(g.nodes()), [list(e) for e in g.edges()]])
+            views.append(None if g is None else full_view(g))
+            if g is not None and spoilt is None and case.get('mutate_early'):
+                spoilt = g
+                spoil(g, pn, pe)
         real = [g for g in gs if g is not None]
         distinct = all(g is not proto for g in real) and len({id(g) for g in real}) == len(real)
+        if spoilt is None and real:
+            spoilt = real[0]
+            spoil(spoilt, pn, pe)
+        # ... and what the prototype and the OTHER copies look like at the end
         independent = True
-        if real:
-            g0 = real[0]
-            g0.add_node(999)
-            g0.add_edge(999, pn[0])
-            if pe:
-                g0.remove_edge(*pe[0])
-            g0.nodes[pn[0]]['x'] = 1
-            for g in [proto] + real[1:]:
-                if list(g.nodes()) != pn or [norm(e) for e in g.edges()] != [norm(e) for e in pe] or 'x' in g.nodes[pn[0]]:
-                    independent = False
+        for g in [proto] + [g for g in real if g is not spoilt]:
+            if list(g.nodes()) != pn or [norm(e) for e in g.edges()] != [norm(e) for e in pe] or 'x' in g.nodes[pn[0]]:
+                independent = False
         return {'outs': outs, 'proto_nodes': pn, 'proto_edges': [list(e) for e in pe], 'distinct': distinct, 'independent': independent,
-                'topology': gen.topology()}
+                'views': views, 'spec': fixed_spec_view(case), 'final_proto': full_view(proto),
+                'final_others': [[w, full_view(g)] for g, w in zip(gs, views) if g is not None and g is not spoilt],
+                'topology': gen.topology(), 'stats': {'fixed_with_attributes': 1 if case.get('nattr') else 0}}
 
     # .... er / ba: nothing of the repository's own to model; D only
     def _collect(self, gen, limit):
@@ -494,10 +589,7 @@ class H(Harness):
         from epydemic import (FixedNetwork, ERNetwork, BANetwork, PLCNetwork, CorePeripheryNetwork as CP, ModularNetwork as MN)
         w = case['which']
         if w == 'fixed':
-            proto = networkx.Graph()
-            proto.add_nodes_from(case['nodes'])
-            proto.add_edges_from([tuple(e) for e in case['edges']])
-            return FixedNetwork(proto, limit=limit)
+            return FixedNetwork(fixed_proto(case), limit=limit)
         cls = {'er': ERNetwork, 'erk': ERNetwork, 'ba': BANetwork, 'plc': PLCNetwork, 'cp': CP, 'mod': MN}[w]
         return cls(limit=limit)
 
@@ -530,7 +622,8 @@ class H(Harness):
         if g is None:
             return None
         return {'nodes': [[n, sorted((str(k), v) for k, v in d.items())] for n, d in g.nodes(data=True)],
-                'edges': sorted(list(norm(e)) for e in g.edges())}
+                'edges': sorted([list(norm((a, b))), attr_items(d)] for a, b, d in g.edges(data=True)),
+                'graph': attr_items(g.graph)}
 
     def run_reuse(self, case):
         import epydemic.plc_generator as PM
@@ -556,6 +649,8 @@ class H(Harness):
                     g = gen.generate()
                     one['set_returns_self'] = r is gen
                     one['reused'] = self._graph_view(g)
+                    if case['which'] == 'fixed' and g is not None:
+                        one['reused_full'] = full_view(g)
                 except Exception as e:      # observable
                     one['exception'] = 'reused: ' + type(e).__name__ + ': ' + str(e)
             log = list(orc.log)
@@ -571,6 +666,8 @@ class H(Harness):
                 last_plc = (st, log, ns)
             steps.append(one)
         obs = {'steps': steps, 'plc': None}
+        if case['which'] == 'fixed':
+            obs['spec'] = fixed_spec_view(case)
         if last_plc is not None:
             st, log, ns = last_plc
             evs = []
@@ -596,49 +693,81 @@ class H(Harness):
         from epydemic import (NetworkExperiment, NetworkGenerator, FixedNetwork, ERNetwork, BANetwork, PLCNetwork,
                               CorePeripheryNetwork as CP, ModularNetwork as MN)
         install(Oracle(seed=case['seed']))
-        N = case['N']
         params = {'unrelated': 1}
+        phi, phi_per = (1.0, 1.0) if case.get('dense') else (0.5, 0.25)
+        protos = []
 
-        def make(w):
+        def make(w, N):
             if w in ('fixed', 'graph'):
                 g = networkx.path_graph(N)
-                return (FixedNetwork(g) if w == 'fixed' else g), 'Arbitrary', {}
+                protos.append((g, N))
+                return (FixedNetwork(g) if w == 'fixed' else g), 'Arbitrary'
+            return {'er': ERNetwork, 'ba': BANetwork, 'plc': PLCNetwork, 'cp': CP, 'mod': MN}[w](), \
+                   {'er': 'ER', 'ba': 'BA', 'plc': 'PLC', 'cp': 'ER-core-periphery', 'mod': 'ER-modular'}[w]
+
+        def extra(w, N):
             if w == 'er':
-                return ERNetwork(), 'ER', {ERNetwork.N: N, ERNetwork.PHI: 0.5}
+                return {ERNetwork.N: N, ERNetwork.PHI: phi}
             if w == 'ba':
-                return BANetwork(), 'BA', {BANetwork.N: N, BANetwork.M: 2}
+                return {BANetwork.N: N, BANetwork.M: 2}
             if w == 'plc':
-                return PLCNetwork(), 'PLC', {PLCNetwork.N: N, PLCNetwork.EXPONENT: 2, PLCNetwork.CUTOFF: 5}
+                return {PLCNetwork.N: N, PLCNetwork.EXPONENT: 2, PLCNetwork.CUTOFF: 5}
             if w == 'cp':
-                return CP(), 'ER-core-periphery', {CP.N_core: N, CP.PHI_core: 0.5, CP.N_per: N, CP.PHI_per: 0.25}
-            return MN(), 'ER-modular', {MN.N_core: N, MN.PHI_core: 0.5, MN.SATELLITES: 2, MN.N_sat: 3, MN.PHI_sat: 0.5}
+                return {CP.N_core: N, CP.PHI_core: phi, CP.N_per: N, CP.PHI_per: phi_per}
+            if w == 'mod':
+                return {MN.N_core: N, MN.PHI_core: phi, MN.SATELLITES: 2, MN.N_sat: 3, MN.PHI_sat: phi}
+            return {}
+
+        seen = []
 
         class E(NetworkExperiment):
             def do(self, params):
-                return {'order': self.network().order()}
+                g = self.network()
+                seen.append({'nodes': sorted(g.nodes()), 'edges': sorted(list(norm(e)) for e in g.edges()),
+                             'is_a_prototype': any(g is p for p, _ in protos)})
+                # the experiment changes its working network; no later run may see this
+                if g.number_of_edges() > 0:
+                    g.remove_edge(*next(iter(g.edges())))
+                g.add_node(-1)
+                return {'order': len(seen[-1]['nodes'])}
 
-        gen, want, extra = make(case['which'])
-        params.update(extra)
+        N = case['N']
+        w = case['which']
+        genN = N
+        gen, want = make(w, N)
+        params.update(extra(w, N))
         e = E(gen)
-        try:
-            rc = e.set(params).run(fatal=True)
-        except Exception as ex:      # observable
-            return {'exception': type(ex).__name__ + ': ' + str(ex), 'want': want}
-        ps = rc[epyc.Experiment.PARAMETERS]
-        out = {'exception': None, 'recorded': ps.get(NetworkGenerator.TOPOLOGY), 'want': want,
-               'generator_says': e.networkGenerator().topology(), 'kept_params': ps.get('unrelated'), 'then': []}
-        for w in case.get('then', []):
-            gen, want, extra = make(w)
-            params.update(extra)                   # the caller keeps using its own dictionary
-            e.setNetworkGenerator(gen)
+        runs = []
+        steps = [None] + list(case.get('then', []))
+        for j, st in enumerate(steps):
+            kept = False
+            if isinstance(st, str):
+                w = st
+                genN = N
+                gen, want = make(w, N)
+                params.update(extra(w, N))               # the caller keeps using its own dictionary
+                e.setNetworkGenerator(gen)
+            elif st is not None:
+                kept = True
+                N = st[1]
+                params.update(extra(w, N))               # same generator object, one parameter changed by the caller
+            one = {'which': w, 'N': N, 'genN': genN, 'kept': kept, 'want': want}
+            del seen[:]
             try:
                 rc = e.set(params).run(fatal=True)
                 ps = rc[epyc.Experiment.PARAMETERS]
-                out['then'].append({'which': w, 'recorded': ps.get(NetworkGenerator.TOPOLOGY), 'want': want,
-                                    'generator_says': e.networkGenerator().topology()})
-            except Exception as ex:
-                out['then'].append({'which': w, 'exception': type(ex).__name__ + ': ' + str(ex), 'want': want})
-        return out
+                one.update({'exception': None, 'recorded': ps.get(NetworkGenerator.TOPOLOGY), 'generator_says': e.networkGenerator().topology(),
+                            'kept_params': ps.get('unrelated'), 'net': seen[-1] if seen else None,
+                            'order_result': rc[epyc.Experiment.RESULTS].get('order')})
+            except Exception as ex:      # observable
+                one['exception'] = type(ex).__name__ + ': ' + str(ex)
+            runs.append(one)
+            if one['exception'] and j == 0:
+                break
+        intact = all(list(p.nodes()) == list(range(n)) and sorted(norm(x) for x in p.edges()) == [(i, i + 1) for i in range(n - 1)]
+                     for p, n in protos)
+        return {'runs': runs, 'prototypes_intact': intact, 'dense': bool(case.get('dense')),
+                'stats': {'exp_runs': len(runs), 'exp_kept_generator': sum(1 for r in runs if r['kept'])}}
 
     # ------------------------------------------------------------------ D
     def direct(self, case, obs):
@@ -678,10 +807,19 @@ class H(Harness):
         for o in outs:
             if o is not None and (o[0] != case['nodes'] or sorted(norm(e) for e in o[1]) != sorted(norm(tuple(e)) for e in case['edges'])):
                 v.append({'signature': 'fixed-copy-differs', 'detail': o}); break
+        spec = obs['spec']
+        for w in obs['views']:
+            if w is not None and w != spec:
+                # "equal": nodes, edges AND what they carry (node, edge and graph attributes)
+                v.append({'signature': 'fixed-copy-differs', 'detail': {'copy': w, 'prototype': spec}}); break
         if not obs['distinct']:
             v.append({'signature': 'fixed-copy-shared', 'detail': None})
         if not obs['independent']:
             v.append({'signature': 'fixed-copy-not-independent', 'detail': None})
+        elif obs['final_proto'] != spec:
+            v.append({'signature': 'fixed-copy-not-independent', 'detail': {'prototype_after_changing_a_copy': obs['final_proto'], 'prototype': spec}})
+        elif any(w0 != w1 for w0, w1 in obs['final_others']):
+            v.append({'signature': 'fixed-copy-not-independent', 'detail': {'other_copies_when_handed_out_and_after_changing_one': obs['final_others']}})
         if obs['topology'] != 'Arbitrary':
             v.append({'signature': 'topology-marker', 'detail': obs['topology']})
         return v
@@ -692,6 +830,10 @@ class H(Harness):
         limit = case['limit']
         if limit is not None and (len(gs) != limit or obs['after'] is not None):
             v.append({'signature': 'quota-limit', 'detail': 'limit %d, iteration gave %d, generate() afterwards %r' % (limit, len(gs), obs['after'])})
+        real = [g for g in gs if g is not None]
+        if len({id(g) for g in real}) != len(real):
+            # every request is answered with a NEW network (the objects are all alive here, so ids do not repeat)
+            v.append({'signature': 'sampled-networks-are-one-object', 'detail': '%d networks, %d objects' % (len(real), len({id(g) for g in real}))})
         for g in gs:
             if g is None:
                 v.append({'signature': 'quota-early-stop', 'detail': None}); continue
@@ -810,6 +952,9 @@ class H(Harness):
                 continue
             if one['reused'] is None:
                 v.append({'signature': 'quota-early-stop', 'detail': 'limit %r, request %d not answered' % (limit, j + 1)})
+            elif 'reused_full' in one and one['reused_full'] != obs['spec']:
+                # a fresh FixedNetwork would share the flaw: compare with the prototype itself
+                v.append({'signature': 'fixed-copy-differs', 'detail': {'step': j, 'copy': one['reused_full'], 'prototype': obs['spec']}})
             elif one['reused'] != one['fresh']:
                 v.append({'signature': 'reused-generator-ignores-latest-parameters',
                           'detail': {'which': case['which'], 'step': j, 'params': st, 'previous': case['steps'][j - 1] if j else None,
@@ -817,18 +962,43 @@ class H(Harness):
         return v
 
     def d_exp(self, case, obs):
-        if obs['exception']:
-            return [{'signature': 'generate-raised', 'detail': obs['exception']}]
         v = []
-        if obs['recorded'] != obs['want'] or obs['generator_says'] != obs['want']:
-            v.append({'signature': 'topology-marker', 'detail': obs})
-        if obs['kept_params'] != 1:
-            v.append({'signature': 'experiment-parameters-lost', 'detail': obs})
-        for o in obs.get('then', []):
-            if o.get('exception'):
+        for j, o in enumerate(obs['runs']):
+            after = '' if j == 0 else (':same-generator-new-parameters' if o['kept'] else ':after-setNetworkGenerator')
+            if o['exception']:
                 v.append({'signature': 'generate-raised', 'detail': o})
-            elif o['recorded'] != o['want'] or o['generator_says'] != o['want']:
-                v.append({'signature': 'topology-marker:after-setNetworkGenerator', 'detail': o})
+                continue
+            if o['recorded'] != o['want'] or o['generator_says'] != o['want']:
+                v.append({'signature': 'topology-marker' + after, 'detail': o})
+            if o['kept_params'] != 1:
+                v.append({'signature': 'experiment-parameters-lost', 'detail': o})
+            # the working network of THIS run: made by the current generator from the parameters of this run
+            net = o['net']
+            if net is None:
+                v.append({'signature': 'experiment-without-working-network' + after, 'detail': o})
+                continue
+            w, N = o['which'], o['N']
+            bad = None
+            if w in ('fixed', 'graph'):
+                n = o['genN']
+                if net['nodes'] != list(range(n)) or net['edges'] != [[i, i + 1] for i in range(n - 1)]:
+                    bad = 'not an equal copy of the prototype (a path on %d nodes)' % n
+                elif net['is_a_prototype']:
+                    bad = 'the prototype itself, not a copy'
+            elif w in ('er', 'ba'):
+                if net['nodes'] != list(range(N)):
+                    bad = 'N = %d in the parameters of this run' % N
+            elif w == 'plc':
+                if len(net['nodes']) != N:
+                    bad = 'N = %d in the parameters of this run' % N
+            elif obs['dense']:
+                n = 2 * N if w == 'cp' else N + 6
+                if len(net['nodes']) != n or (w == 'cp' and net['nodes'] != list(range(n))):
+                    bad = 'all densities 1: %d nodes expected' % n
+            if bad:
+                v.append({'signature': 'experiment-working-network' + after, 'detail': {'why': bad, 'run': o, 'earlier_runs': obs['runs'][:j]}})
+        if not obs['prototypes_intact']:
+            v.append({'signature': 'fixed-copy-not-independent', 'detail': 'a prototype network changed when the experiment changed its working network'})
         return v
 
     # ------------------------------------------------------------------ tie B
@@ -925,5 +1095,5 @@ class H(Harness):
         return str(sorted(c.items()))
 
     def sample_view(self, case, obs):
-        o = {k: v for k, v in obs.items() if k not in ('g', 'graphs', 'ptab', 'evs', 'after', 'plc', 'steps')}
+        o = {k: v for k, v in obs.items() if k not in ('g', 'graphs', 'ptab', 'evs', 'after', 'plc', 'steps', 'views', 'final_others')}
         return {'case': {k: v for k, v in case.items() if k != 'ints'}, 'observed': o}
